@@ -35,7 +35,7 @@ fn inspection(rng: &mut Rng) -> Inspect {
     let v = rng.pick(NUM_VARS);
     let w = rng.pick(NUM_VARS);
     let sv = rng.pick(STR_VARS);
-    match rng.below(23) {
+    match rng.below(26) {
         0..=2 => Inspect::Stmt(format!("PRINT {v}")),
         3 => Inspect::Stmt(format!("PRINT {v} + {w} * 2; {sv}")),
         4 => Inspect::Stmt(format!("PRINT ABS({v}) ; INT({w} / 3) ; RND(0)")),
@@ -57,6 +57,10 @@ fn inspection(rng: &mut Rng) -> Inspect {
         // statements that always fail at the prompt and assign nothing
         19 => Inspect::Stmt(format!("DEF {}({}) = {} + 100", rng.pick(&["FNC", "FNJ", "FNW"]), rng.pick(&["Y", "C, J", "Q$"]), rng.pick(&["Y", "1", "C"]))),
         20 => Inspect::Stmt("NEXT Q9".into()),
+        // immediate lines of several statements (each statement is its own host call)
+        22 => Inspect::Stmt(format!("PRINT {v} : PRINT {w}")),
+        23 => Inspect::Stmt(format!("PRINT {v} : PRINT 1 / 0 : PRINT {w}")),
+        24 => Inspect::Stmt("REM : PRINT 1 : REM".into()),
         21 => Inspect::Redim(rng.pick(&["C", "V", "C$", "K", "YZ"]).to_string(), rng.pick(&[1u64, 3, 10, 12])),
         _ => Inspect::Stmt(format!("PRINT ({v}")),
     }
